@@ -22,6 +22,12 @@ CLAIMED = {
          "constraints computed in Asn1Types.tla) define the expected octets for every (type, value) TLC enumerates; Encode events "
          "recorded from the generated code are accepted by the trace specification only when byte-identical.",
          "TLA+ reference encoders (DER/UPER/OER) + TLC enumeration + byte-exact trace validation"),
+ "C03": ("model_checking", "7 C03",
+         "Variants.tla defines the relation 'b is a valid encoding of v' beyond the canonical forms (BER length forms, indefinite lengths, "
+         "constructed strings, SET order, explicit DEFAULTs, TRUE octet, unknown extension additions; BASIC-PER/OER explicit defaults and "
+         "unknown extensions; XER layouts). TLC enumerates every (type, value, style); each variant is decoded by the generated code and the "
+         "trace is accepted only for RC_OK, full length consumed, the specified value and the canonical DER re-encoding.",
+         "TLA+ variant-encoding relation + TLC enumeration + trace validation of decode results"),
  "C05": ("model_checking", "7 C05",
          "Codec.tla models a restartable decoding session (stream, position, per-call contract: WMORE with consumed <= presented while "
          "octets are missing; OK, everything consumed and the value delivered once they are all there). TLC generates, for every (type, "
